@@ -17,7 +17,7 @@ HANG_S = float(os.environ.get("VERIF_HANG_S", "150"))
 # program -> the sequence of programs (one process, in this order, the program last) that kills the executor although the program alone
 # does not: deaths that depend on what the process did before (heap layout, addresses), reproduced twice in fresh processes
 SEQ_CRASH = {}
-HISTORY_CAP = 96 << 20
+HISTORY_CAP = 32 << 20
 
 
 class Executor:
